@@ -23,7 +23,29 @@ ASAN_REL_BIN = os.path.join(ASAN_TARGET, ASAN_TRIPLE, "release", "footprint")
 ASAN_CMD = ("RUSTFLAGS='-Zsanitizer=address --cfg lm_asan' cargo +nightly build --offline --target %s "
             "--target-dir %s --bin footprint [--release]" % (ASAN_TRIPLE, ASAN_TARGET))
 
-_state = {"asan": None}
+MSAN_TARGET = os.path.join(C.BUILD, "cargo-msan") if C.ALT is None else os.path.join(C.BUILD, C.ALT, "cargo-msan")
+MSAN_BIN = os.path.join(MSAN_TARGET, ASAN_TRIPLE, "debug", "footprint")
+MSAN_CMD = ("RUSTFLAGS='-Zsanitizer=memory --cfg lm_msan' cargo +nightly build -Zbuild-std --offline --target %s "
+            "--target-dir %s --bin footprint" % (ASAN_TRIPLE, MSAN_TARGET))
+
+_state = {"asan": None, "msan": None}
+
+
+def build_msan(timeout=2400):
+    """Third instrumented build: MemorySanitizer (initialisation tracking) with an instrumented std
+    (-Zbuild-std: nightly + rust-src, works offline)."""
+    if _state["msan"] is not None:
+        return _state["msan"]
+    t0 = time.time()
+    env = dict(C.ENV)
+    env.pop("CARGO_TARGET_DIR", None)
+    env["RUSTFLAGS"] = "-Zsanitizer=memory --cfg lm_msan"
+    cmd = "cargo +nightly build -Zbuild-std --offline --target %s --target-dir %s --bin footprint" % (ASAN_TRIPLE, MSAN_TARGET)
+    with C.Lock("cargo-msan" if C.ALT is None else "cargo-msan-" + C.ALT):
+        rc, out = C.sh(cmd, cwd=C.harness_dir(), timeout=timeout, env=env)
+    ok = rc == 0 and os.path.exists(MSAN_BIN)
+    _state["msan"] = dict(ok=ok, log=out, path=MSAN_BIN, wall=time.time() - t0)
+    return _state["msan"]
 
 
 def build_asan(timeout=1800):
@@ -50,6 +72,8 @@ def build_asan(timeout=1800):
 
 
 def setup_extra():
+    m = build_msan() if build_asan()["ok"] else dict(ok=False, wall=0, log="not attempted")
+    C.log("harness footprint (MemorySanitizer, build-std): %s (%.0fs)" % ("ok" if m["ok"] else "FAILED", m["wall"]))
     r = build_asan()
     C.log("harness footprint (AddressSanitizer): %s (%.0fs)" % ("ok" if r["ok"] else "FAILED", r["wall"]))
     if not r["ok"]:
@@ -65,6 +89,11 @@ def _extra(ctx):
         out.append(("INFRA", "AddressSanitizer build of the harness failed:\n" + r["log"][-3000:], ""))
         return out
     ctx["notes"].append("ASan build: %s (%.1fs)" % (ASAN_CMD, r["wall"]))
+    m = build_msan()
+    if not m["ok"]:
+        out.append(("INFRA", "MemorySanitizer build of the harness failed:\n" + m["log"][-3000:], ""))
+    else:
+        ctx["notes"].append("MSan build: %s (%.1fs)" % (MSAN_CMD, m["wall"]))
     # self-test: the instrumented binary must report a deliberate heap over-read / misaligned
     # load made by the HARNESS itself (otherwise `asan=CLEAN` would mean nothing)
     env = dict(C.ENV)
@@ -286,6 +315,9 @@ def main(tier, seed, replay):
         # read by `footprint run` (vlib.common.run_sharded passes C.ENV to the children)
         C.ENV["LM_FP_ASAN_BIN"] = r["path"]
         C.ENV["LM_FP_ASAN_REL_BIN"] = r["rel_path"]
+        m = build_msan()
+        # (a failed MSan build gives msan=NOMSAN verdicts: reported as a broken tie, and as INFRA by _extra)
+        C.ENV["LM_FP_MSAN_BIN"] = m["path"] if m["ok"] else "/nonexistent/footprint-msan"
     else:
         # `run` then prints asan=NOASAN for every case: the driver reports the missing verdict as a
         # broken tie and _extra() names the build failure
